@@ -151,7 +151,7 @@ func c07Core(c *eng.Ctx) {
 			continue
 		}
 		// on every iteration: from the body entry, the header cannot be reached again without passing the store
-		hit, path := eng.Search(match, l.Body.Instrs[0], nil, func(in ssa.Instruction) bool { return in == ssa.Instruction(st) }, func(in ssa.Instruction) bool { return in.Block() == l.Header || eng.IsReturn(in) })
+		hit, path := eng.SearchBlock(match, l.Body, nil, func(in ssa.Instruction) bool { return in == ssa.Instruction(st) }, func(in ssa.Instruction) bool { return in.Block() == l.Header || eng.IsReturn(in) })
 		if l.Body.Instrs[0] == ssa.Instruction(st) {
 			hit = nil
 		}
